@@ -10,7 +10,7 @@ SO2 = "oxmpl/src/base/spaces/so2_state_space.rs"
 SO3 = "oxmpl/src/base/spaces/so3_state_space.rs"
 SOURCES = [SO2, SO3]
 PRELUDE = ["core.rs", "spaces.rs", "sampling.rs"]
-SERVES = ["C14"]
+SERVES = ["C14", "C04", "C11"]
 FUNCTIONS = [SO2 + "::SO2StateSpace::sample_uniform", SO3 + "::SO3StateSpace::sample_uniform"]
 # the structural contract stands for a distributional property: a failure counts only together with a report of the statistical family
 PROXY_FUNCTIONS = {"sample_uniform": ["C14"]}
@@ -31,7 +31,7 @@ def _pre(text):
 PREPROCESS = {SO2: _pre, SO3: _pre}
 PRELUDE_EDITS = [
     ("        requires seeded_mode() ==> old(rng).det(),                  //@ space.sample_uniform.det [C07]\n        ensures final(rng).det() == old(rng).det(),\n            r is Ok ==> self.sample_set(&r->Ok_0);\n",
-     "        requires self.space_ok(), seeded_mode() ==> old(rng).det(),                  //@ space.sample_uniform.det [C07]\n        ensures final(rng).det() == old(rng).det(), r is Ok ==> self.sample_draws(*old(rng), *final(rng), &r->Ok_0),     //@ space.sample_uniform.draws [C14]\n            r is Ok ==> self.sample_set(&r->Ok_0);\n"),
+     "        requires self.space_ok(), seeded_mode() ==> old(rng).det(),                  //@ space.sample_uniform.det [C07]\n        ensures final(rng).det() == old(rng).det(), r is Ok ==> self.sample_draws(*old(rng), *final(rng), &r->Ok_0),     //@ space.sample_uniform.draws [C14]\n            r is Ok ==> self.sample_set(&r->Ok_0);     //@ space.sample_uniform.in_bounds [C11,C04]\n"),
     ("    spec fn sample_set(&self, s: &Self::StateType) -> bool;      // the states sample_uniform can return\n",
      "    spec fn sample_set(&self, s: &Self::StateType) -> bool; spec fn sample_draws<R>(&self, g0: R, g1: R, s: &Self::StateType) -> bool; spec fn space_ok(&self) -> bool;\n"),
 ]
@@ -100,7 +100,10 @@ A3.append(Ann('impl#2', 'impl-start', r'''
     uninterp spec fn interp_spec(&self, a: &SO3State, b: &SO3State, t: f64) -> SO3State;
     uninterp spec fn lvsl_spec(&self) -> f64;
     uninterp spec fn in_bounds_spec(&self, a: &SO3State) -> bool;
-    open spec fn sample_set(&self, s: &SO3State) -> bool { true }
+    /// C11 / C04: a sample satisfies the cone bound (the centre itself for a degenerate cone)
+    open spec fn sample_set(&self, s: &SO3State) -> bool {
+        if flt(self.bounds.1, 1e-9f64) { *s == self.bounds.0 } else { fle(self.dist_spec(&self.bounds.0, s), self.bounds.1) }      //@ so3.sample_inside_cone [C11,C04]
+    }
     open spec fn space_ok(&self) -> bool { true }
     /// C14: the sample is the cone centre for a degenerate cone; otherwise it is the normalised FIRST accepted candidate of the stream
     /// of 4-draw candidates (rejection sampling from the cube to the ball to the cone), and the generator has advanced by exactly those draws
